@@ -14,7 +14,7 @@ PROPS = {
     'C03': {'units': ['opt', 'fuse', 'fvalid', 'optm'], 'kani': K_ANALYSIS},
     'C19': {'units': ['run19', 'pexec'], 'kani': K_CONTEXT, 'only': {'pexec': r'resolve_private_data'}},
     'C20': {'units': ['gad', 'quot', 'fri', 'periodic', 'fquery'], 'kani': [], 'only': {'fri': r'evaluate_polynomial|circuit_exp_by_constant|lemma_', 'fquery': r'final_query_point'}},
-    'C07': {'units': ['fri', 'shape', 'fold', 'fchain', 'fquery', 'evpts', 'openin'], 'kani': [], 'only': {'shape': r'verify_fri_circuit'}, 'exclude': r'possible (bit shift|arithmetic)'},
+    'C07': {'units': ['fri', 'shape', 'fold', 'fchain', 'fquery', 'evpts', 'openin', 'onehot'], 'kani': [], 'only': {'shape': r'verify_fri_circuit'}, 'exclude': r'possible (bit shift|arithmetic)'},
     'C05': {'units': ['chal', 'coef'], 'kani': [], 'exclude': r'canonical_width', 'only': {'coef': r'select_path'}},
     'C06': {'units': ['bind', 'pchain', 'pexec'], 'kani': [], 'only': {'pexec': r'compact_header|limb_ctl_enabled'}},
     'C17': {'units': ['cache', 'rcplug'], 'kani': []},
